@@ -84,7 +84,7 @@ var cancelShapes = []shapeDef{
 	{name: "await_in_async_loop", defs: "async def leaf(n: Int): Int\n  n + 1\nend\n", body: "loop\n  x = await leaf(x)\nend\n"},
 	// constructs with no context support (D4)
 	{name: "await_sync_never", defs: "async def hang(ch: Channel[Int]): Int\n  try ch.pop\nend\n", body: "nch := Channel::[Int](0)\nx = await hang(nch)\n"},
-	{name: "wg_wait", known: true, body: "wgx := Std::Sync::WaitGroup(1)\nwgx.wait\n"},
+	{name: "wg_wait", body: "wgx := Std::Sync::WaitGroup(1)\nwgx.wait\n"},
 	{name: "mutex_lock", known: true, body: "mx := Std::Sync::Mutex()\nmx.lock\nmx.lock\n"},
 	{name: "sleep_long", body: "sleep 1000.hours\n"},
 	{name: "sleep_in_loop", body: "loop\n  sleep 30.seconds\n  x = x + 1\nend\n"},
